@@ -67,6 +67,9 @@ pub const TAG_TEMPLATES: &[TagTemplate] = &[
     tt("{X}.{Y}.{Z}-", false, false),
     tt("v", false, false),
     tt("deploy/prod", false, false),
+    tt("发布-{N}", false, false),
+    tt("ünï/{X}.{Y}.{Z}", false, false),
+    tt("релиз_{X}.{Y}.{Z}_с_очень_длинным_названием_которое_занимает_много_байтов_{N}", false, false),
 ];
 
 pub fn small(r: &mut Rng) -> u64 {
@@ -150,6 +153,21 @@ pub fn sibling_tags(r: &mut Rng) -> Vec<String> {
         }
     }
     out
+}
+
+/// A branch name of 170-240 bytes made of multi-byte characters, with a seeded ASCII offset so that
+/// every byte position is inside a character for some seed.
+pub fn long_multibyte_branch(r: &mut Rng) -> String {
+    let unit = *r.pick(&["日本", "é", "ж", "🚀", "ｆ"]);
+    let mut s = String::from("wip/");
+    for k in 0..r.below(4) {
+        s.push((b'a' + k as u8) as char);
+    }
+    let target = 170 + r.below(60) as usize;
+    while s.len() + unit.len() <= target {
+        s.push_str(unit);
+    }
+    s
 }
 
 pub const RULE_BRANCHES: &[&str] = &[
